@@ -14,7 +14,7 @@ Model of the coordinate-system and rigid-body geometry of pyyeti/nastran/n2p.py 
                              and q-set grids;
 * `rbmoveRow`, `Rb.mul`      `rbmove`;   `rbcoordsGrid`  `rbcoords` (3x3 inverse by adjugate);
 * `gaussSolve`               Gaussian elimination (the `Float` stand-in for `scipy.linalg.solve`);
-                             `formrbe3` itself is modelled in `Model/CoordRbe3.lean`, the id / reference
+                             `formrbe3` itself is modelled in `Model/CoordRbe3.lean` / `Model/CoordRbe3Wrap.lean`, the id / reference
                              bookkeeping of `build_coords` in `Model/CoordChain.lean`;
 * `replaceBasic`             `replace_basic_cs`;   `cardOf`  `mkcordcardinfo`.
 
